@@ -143,6 +143,39 @@ add("C10", "E3 sock-mc", "model_checking",
     "the rotation yet).",
     "stateless deviation-bounded DFS over the real sockets with per-step wire-tap oracle")
 
+add("C11", "E3 sock-mc (exhaustive histories)", "model_checking",
+    "For the real PUB and XPUB sockets: every history of length <= 3 (thorough 4) over 11 per-subscriber operations (subscribe / "
+    "unsubscribe to \"\", a, ab, b; three malformed subscription messages) for one subscriber and every pair of histories of length "
+    "<= 2 for two subscribers, followed by publishing first frames \"\", a, ab, abc, b, c; compared with a reference multiset-of-prefixes "
+    "model on the reference-decoded wires: delivered exactly once iff a subscription is a byte-prefix; XPUB.recv returns the "
+    "subscribers' messages verbatim in per-peer order. Duplicates, overlapping prefixes, exact-length topics and unsubscribe-then-"
+    "publish are all inside the enumerated space.",
+    "DESIGN.md 5.11",
+    "Matching is sequential: default schedule per history plus every single deviation on short histories.",
+    "exhaustive operation-history enumeration on the real sockets against a reference model")
+
+add("C12", "E3 sock-mc (fault sequences)", "model_checking",
+    "Real PUB/XPUB with a slow and a healthy subscriber: ALL sequences over 6 publishes of the slow connection's behaviour {open, "
+    "stalled, accepts 1000 bytes then stalls, broken pipe} x size profiles around the 128 KiB high-water mark (1 B .. 200 kB). "
+    "Oracle: every publish returns while the slow pipe makes no progress; the healthy subscriber misses nothing; the slow wire is a "
+    "well-formed order-preserving subsequence of complete messages; bytes held for the slow subscriber never exceed HWM + one "
+    "message (wire accounting) and net heap growth stays bounded (counting allocator). Loopback TCP never pushes back in the suite, so "
+    "these paths are dead code there; here the stall pattern is the enumerated space.",
+    "DESIGN.md 5.12",
+    "'Not accepting data' = the harness pipe's poll_write returns Pending. Heap bound has slack for buffer capacity doubling.",
+    "exhaustive fault-sequence enumeration on the real sockets with wire-tap and allocator oracles")
+
+add("C13", "E3 sock-mc", "model_checking",
+    "Real SUB socket: every history of subscribe/unsubscribe calls over 2 topics up to length 3 (thorough 4) with 1-2 (thorough 3) raw "
+    "peers whose attach may run at ANY point, including between the snapshot of the set and the registration and between the set "
+    "update and the fan-out (yield points), under every schedule within the deviation bound from 2 policies and both spawn orders; "
+    "plus one peer whose connection starts failing writes at any point, for each iteration position (hash key of the peer table). "
+    "Oracle from the reference-decoded wires folded into per-topic counts: all live peers agree; the view equals the socket's set; a "
+    "failing peer does not stop the others; no panic.",
+    "DESIGN.md 5.13",
+    "For double-subscribe histories only agreement is demanded. scc hashing is owned through the vendored-scc seam.",
+    "stateless deviation-bounded DFS over the real socket with yield points at the non-atomic registration / fan-out steps")
+
 PENDING = ["C01","C02","C03","C04","C05","C06","C07","C08","C09","C10","C11","C12","C13","C14","C15","C16","C17","C18","C20"]
 
 def main():
